@@ -1476,4 +1476,109 @@ theorem c10_correct_partial (cfg : Cfg) (chain : Nat → Beacon) (self : String)
   obtain ⟨a, b, c, _⟩ := correct_core cfg chain self hround hcomp hle H env henv n fb hfb
   exact ⟨a, b, c⟩
 
+/-- the participant node of the counterexamples: unchained chain 0..3 with the true signatures -/
+def cxNode3 : Node :=
+  ⟨Stack.run false [0, 0] [.put ⟨1, [1, 1], []⟩, .put ⟨2, [1, 2], []⟩, .put ⟨3, [1, 3], []⟩], [], []⟩
+/-- asked to repair round `f`, first streams the true beacon of round 9, then that of round `f` -/
+def cxBeyond : Peer := ⟨"liar", fun f => .stream [.pkt ⟨9, [1, 9], []⟩ true, .pkt ⟨f, [1, UInt8.ofNat f], []⟩ true]⟩
+def cxHonest (H : Nat) : Peer :=
+  ⟨"honest", fun f => .stream ((List.range' f (H + 1 - f)).map fun r => .pkt ⟨r, [1, UInt8.ofNat r], []⟩ true)⟩
+
+/-- **c10_correct_counterexample** (as-is code; replayed on the real code, corpus/C10/resync_out_of_range.json): the node
+holds rounds 0..3, round 2 is to be repaired, the peers are a liar and then an honest peer (so every hypothesis of
+`c10_correct_exact` but `rangeCheck` holds). The repair reports success and leaves round 9 in the base store: rounds
+4..8 are missing below the new head. -/
+theorem c10_correct_counterexample :
+    let r := correctPast (cxCfg .participant) "self" (fun _ => ([cxBeyond, cxHonest 9], [cxBeyond, cxHonest 9])) cxNode3 [2]
+    r.2.1 = .ok ∧ cxNode3.st.base.map (·.1) = [0, 1, 2, 3] ∧ r.1.st.base.map (·.1) = [0, 1, 2, 3, 9] ∧
+      lookup 9 cxNode3.st.base = none ∧ (lookup 9 r.1.st.base).isSome = true := by
+  decide
+
+/-! ### the follow loop -/
+
+/-- **c10_follow_retry** (corrected variant `followRetry`: `errChan` is a made channel, so a failed `Sync` is retried
+after a period). Follow stack with the round check or on a chained scheme; `earlier` are attempts in which every peer
+fails without stalling (transient failures: dial errors, early closes, bad packets …); then comes an attempt in which an
+honest peer ahead of the target is reached before any stalling peer. The loop ends `done` with the head at the target
+and the store a prefix of the true chain. -/
+theorem c10_follow_retry (cfg : Cfg) (hfr : cfg.followRetry = true) (chain : Nat → Beacon) (self : String) (upTo H : Nat)
+    (n : Node) (earlier : List (List Peer)) (pre post : List Peer) (hp : Peer)
+    (hI : Ideal cfg.verify n.st.chained chain)
+    (hgood : cfg.mode = .participant ∨ cfg.roundCheck = true ∨ n.st.chained = true)
+    (hle : ∀ s, ChainInv s → cfg.lastErr s.base = false)
+    (hc : ChainInv n.st) (ho : OnChain chain n) (hlt : n.head < upTo) (hH : upTo ≤ H)
+    (hhon : Honest chain H hp) (hself : hp.addr ≠ self) (hpre : ∀ p ∈ pre, NoStall p)
+    (hearlier : ∀ ps ∈ earlier, ∀ p ∈ ps, NoStall p) :
+    let r := followLoop cfg self upTo n (earlier ++ [pre ++ hp :: post])
+    r.2 = .done ∧ r.1.head = upTo ∧ InOrder n r.1 ∧ OnChain chain r.1 := by
+  suffices hsuff : ∀ (earlier : List (List Peer)) (m : Node), (∀ ps ∈ earlier, ∀ p ∈ ps, NoStall p) → Good chain n m →
+      m.head < upTo →
+      (followLoop cfg self upTo m (earlier ++ [pre ++ hp :: post])).2 = .done ∧
+      (followLoop cfg self upTo m (earlier ++ [pre ++ hp :: post])).1.head = upTo ∧
+      Good chain n (followLoop cfg self upTo m (earlier ++ [pre ++ hp :: post])).1 by
+    obtain ⟨a, b, c⟩ := hsuff earlier n hearlier (good_refl hc ho) hlt
+    exact ⟨a, b, c.1, c.2⟩
+  intro earlier
+  induction earlier with
+  | nil =>
+    intro m _ hg hm
+    have hIm : Ideal cfg.verify m.st.chained chain := by rw [hg.1.2.1]; exact hI
+    have hgm : cfg.mode = .participant ∨ cfg.roundCheck = true ∨ m.st.chained = true := by rw [hg.1.2.1]; exact hgood
+    obtain ⟨hok, hh, _, hoc⟩ :=
+      c10_converges cfg chain self upTo H m pre post hp hIm hgm hle hg.1.1 hg.2 hm hH hhon hself hpre
+    obtain ⟨g, _, _⟩ := sync_any (upTo := upTo) hI hgood self (pre ++ hp :: post) false m hg hm
+    simp only [List.nil_append, followLoop, hok]
+    exact ⟨trivial, hh, g⟩
+  | cons ps earlier ih =>
+    intro m hns hg hm
+    obtain ⟨g, r1, r2⟩ := sync_any (upTo := upTo) hI hgood self ps false m hg hm
+    obtain ⟨_, hnc⟩ := sync_nostall cfg self 0 upTo ps m (hns ps List.mem_cons_self)
+    simp only [List.cons_append, followLoop]
+    cases hres : (sync cfg self 0 upTo false m ps).2.1 with
+    | ok => exact ⟨by simp, r1 hres, g⟩
+    | cancelled => exact absurd hres hnc
+    | failedAll =>
+      simp only [hfr, if_true]
+      exact ih _ (fun qs hq => hns qs (List.mem_cons_of_mem _ hq)) g (r2 (by rw [hres]; simp))
+
+/-
+Full statement wanted for the as-is code: c10_follow_retry without `followRetry`. It does not hold: StartFollowChain
+declares `var errChan chan error` (a nil channel); the goroutine's `errChan <- syncer.Sync(…)` blocks for ever and the
+`case <-errChan` arm can never fire, so after one failed `Sync` nothing ever retries.
+-/
+def cxCloser : Peer := ⟨"closer", fun _ => .stream []⟩
+
+/-- **c10_follow_retry_counterexample** (as-is code, DESIGN §5 row 5): first attempt, the only peer closes the stream at
+once; second attempt, the same address serves the chain honestly. As is, the loop is stuck after the first attempt with
+the head where it was; with `followRetry` the same schedule reaches the target. -/
+theorem c10_follow_retry_counterexample :
+    followLoop (cxCfg .follow) "self" 3 (cxNode false) [[cxCloser], [cxHonest 3]] = (followLoop (cxCfg .follow) "self" 3 (cxNode false) [[cxCloser]]) ∧
+    (followLoop (cxCfg .follow) "self" 3 (cxNode false) [[cxCloser], [cxHonest 3]]).2 = .stuck ∧
+    (followLoop (cxCfg .follow) "self" 3 (cxNode false) [[cxCloser], [cxHonest 3]]).1.head = 0 ∧
+    (followLoop { cxCfg .follow with followRetry := true } "self" 3 (cxNode false) [[cxCloser], [cxHonest 3]]).2 = .done ∧
+    (followLoop { cxCfg .follow with followRetry := true } "self" 3 (cxNode false) [[cxCloser], [cxHonest 3]]).1.head = 3 := by
+  refine ⟨rfl, ?_, ?_, ?_, ?_⟩ <;> decide
+
+/-! ### `Run`: when is a sync request acted upon -/
+
+/-- **c10_run_admission.** A request for a round the store already has is dropped; otherwise a new sync is started — the
+old one cancelled — exactly when the previous sync's context is dead or no beacon arrived for more than
+`factor · period`; otherwise the request is ignored. In particular a stuck (stalling) sync is replaced by the first
+request that arrives after that delay, and a finished one by the next request. -/
+theorem c10_run_admission (factor period : Nat) (now : Int) (rs : RunState) (last upTo : Nat) :
+    (upTo > 0 ∧ last ≥ upTo → admit factor period now rs last upTo = (rs, .filled)) ∧
+    (¬ (upTo > 0 ∧ last ≥ upTo) → (rs.alive = false ∨ now > rs.lastRoundTime + (period * factor : Nat)) →
+        admit factor period now rs last upTo = ({ lastRoundTime := now, alive := true }, .start)) ∧
+    (¬ (upTo > 0 ∧ last ≥ upTo) → rs.alive = true → now ≤ rs.lastRoundTime + (period * factor : Nat) →
+        admit factor period now rs last upTo = (rs, .ignore)) ∧
+    (¬ (upTo > 0 ∧ last ≥ upTo) → (admit factor period now rs.finished last upTo).2 = .start) := by
+  unfold admit RunState.finished
+  refine ⟨fun h => by rw [if_pos h], fun h1 h2 => by rw [if_neg h1, if_pos h2], fun h1 h2 h3 => ?_,
+    fun h1 => by rw [if_neg h1, if_pos (Or.inl rfl)]⟩
+  have : ¬ (rs.alive = false ∨ now > rs.lastRoundTime + (period * factor : Nat)) := by
+    intro h; rcases h with h | h
+    · rw [h2] at h; cases h
+    · omega
+  rw [if_neg h1, if_neg this]
+
 end Drand.Beacon.Sync
